@@ -6,10 +6,13 @@ the issuer flagged, other issuers untouched).
 Chain (F8): harness/corr/c08_chain.py (real checks on planted bias with lll.reduce recorded inside the
 solver calls: default-w lattice = model, solver answer = solver model on the recorded LLL answer,
 "planted row in the LLL answer => all signatures of the issuer flagged with the key" as a property,
-planted-row statistics)."""
+planted-row statistics).
+Margin: harness/corr/c08_margin.py (the premise "signatures x bits >= 2 x curve size" on the real checks: known finding D23
+replayed, a gated region where a miss is a violation)."""
 import corr.c08_lattice as lat
 import corr.c02s as c02s
 import corr.c08_chain as chain
+import corr.c08_margin as margin
 
 META = dict(
     trusted_base=(lat.META.get('trusted_base', []) + c02s.META.get('trusted_base', []) +
@@ -22,6 +25,11 @@ def correspondence(rep, rng, tier):
   lat.correspondence(rep, rng, tier)
   c02s.correspondence_sigs(rep, rng, tier)
   chain.correspondence(rep, rng, tier)
+  margin.gated(rep, rng, tier)
+
+
+def known_findings(rep):
+  margin.known_findings(rep)
 
 
 def search(rep, rng, tier):
@@ -31,6 +39,15 @@ def search(rep, rng, tier):
 
 
 def replay(doc):
+  rp = (doc.get('info') or {}).get('replay')
+  if isinstance(rp, list) and len(rp) == 5:
+    import shims
+    shims.install()
+    ok = margin.found(*rp)
+    print('c08_margin.found%r -> %s' % (tuple(rp), ok))
+    if not ok:
+      print('VIOLATION property=C08 issuer not flagged although signatures x bits >= 2 x curve size')
+    return 0 if ok else 1
   if hasattr(lat, 'replay'):
     return lat.replay(doc)
   return 2
